@@ -120,6 +120,11 @@ def scenarios(tier):
     S.append(mk("reconverge-lose2-one-listener-dev", no_listen={1: True}, lose=2, dev_bound=4 if q else 5, max_depth=200))
     S.append(mk("reconverge-lose2-two-candidates-dev", lose=2, dev_bound=3 if q else 4, max_depth=240))
     S.append(mk("reconverge-lose1-frames-dev", no_listen={0: True}, lose=1, chunking="frames", dev_bound=4 if q else 5, max_depth=200))
+    # handshake progress byte by byte: segment boundaries one byte into and one byte before the end of each wire unit (prologue,
+    # Noise handshake, KCM, records), initially and after a loss
+    S.append(mk("initial-one-listener-edges-dev", no_listen={1: True}, chunking="frames+edges", dev_bound=3 if q else 4, max_depth=200))
+    S.append(mk("initial-other-listener-edges-dev", no_listen={0: True}, chunking="frames+edges", dev_bound=3 if q else 4, max_depth=200))
+    S.append(mk("reconverge-lose1-edges-dev", no_listen={1: True}, lose=1, chunking="frames+edges", dev_bound=3 if q else 4, max_depth=260))
     # the leader holds un-acked records (sent, or written while down) when the next generation's connection is selected: they are
     # replayed on the new connection, and the follower must already have been told (KCM) that the connection is the chosen one
     TU = {0: [[("open", "p"), ("write", 0, b"u1"), ("write", 0, b"u2")]], 1: [[("listen", "p")]]}
